@@ -3,7 +3,7 @@
 import numpy as np
 from hypothesis import strategies as st
 
-from .. import gen, sut, tol
+from .. import gen, oracles, sut, tol
 from ..core import Outcome
 
 ID = "C07"
@@ -20,7 +20,7 @@ RULE = (
     "distinct = canonical JSON."
 )
 ASSUMPTIONS = [
-    "mirrors are checked with halo=0 (mirror about cell 0 of the periodic domain); transpose and similarity with any halo",
+    "mirrors about cell 0 are checked with halo=0 and compared in-band; mirrors about the window centre are checked with any halo whenever the mirrored axis has an odd padded size with clamped modes (symmetric retained set => exact); transpose and similarity with any halo",
     "shooting growth bounded by exp(13.8) by construction",
 ]
 TOLERANCES = {"all": "(1e-12 + 256*eps*G) * max|field| (spectral comparisons: * max|spectrum|)"}
@@ -118,6 +118,26 @@ def check_case(case):
         err = tol.maxabs(a - b)
         if not err <= rel * scale:
             out.bad(f"axis swap: {name} of the transposed problem is not the transposed {name} ({err:.3e} > {rel * scale:.3e}; halo {hv}, modes {mh})")
+
+    # ---- mirrors about the window centre with the case's halo: exact whenever the retained wavenumber set of the
+    #      mirrored axis is symmetric (odd padded size, modes clamped to it), so no unpaired Nyquist component exists
+    pxh, pyh, _ = gen.pad_widths(case, hv)
+    nxe, nye = nx + 2 * pxh, ny + 2 * pyh
+    eff = oracles.effective_modes(mh, nxe, nye)
+    if nxe % 2 == 1 and eff[0] == nxe:
+        out.label("flip-x-with-halo")
+        cm, fm = run(q0[:, ::-1].copy(), (-u, v, Kx, Ky, Kz), dom, mh, (nx - 1 - im, jm), hv)
+        for name, a, b in (("conc", ch, cm[:, :, ::-1]), ("flux", fh, fm[:, :, ::-1])):
+            err = tol.maxabs(a - b)
+            if not err <= rel * max(tol.maxabs(a), abs(bg)):
+                out.bad(f"x-mirror about the window centre with halo {hv}: {name} differs by {err:.3e} (padded {nxe}x{nye}, modes {mh})")
+    if nye % 2 == 1 and eff[1] == nye:
+        out.label("flip-y-with-halo")
+        cm, fm = run(q0[::-1, :].copy(), (u, -v, Kx, Ky, Kz), dom, mh, (im, ny - 1 - jm), hv)
+        for name, a, b in (("conc", ch, cm[:, ::-1, :]), ("flux", fh, fm[:, ::-1, :])):
+            err = tol.maxabs(a - b)
+            if not err <= rel * max(tol.maxabs(a), abs(bg)):
+                out.bad(f"y-mirror about the window centre with halo {hv}: {name} differs by {err:.3e} (padded {nxe}x{nye}, modes {mh})")
 
     # ---- similarity in lengths: x, y, z, halo, meas_pt and K times s
     s = case["s"]
